@@ -15,7 +15,7 @@ from common import REPO, WORK
 SUFFIX = os.environ.get("VERIF_KANI_TARGET_SUFFIX", "")
 MIR_DIR = os.path.join(WORK, "mir" + SUFFIX)
 POOL_PROPS = {"C01", "C02", "C09", "C10", "C13", "C20"}
-MIR_PROPS = POOL_PROPS | {"C06", "C15", "C08", "C03", "C04", "C14", "C05"}
+MIR_PROPS = POOL_PROPS | {"C06", "C15", "C08", "C03", "C04", "C14", "C05", "C11"}
 
 
 def source_hash():
@@ -57,6 +57,17 @@ def dump_mir(force=False):
         p = subprocess.run(cmd, cwd=REPO, env=env, stdout=f, stderr=log, timeout=1800)
     if p.returncode != 0 or os.path.getsize(out + ".tmp") < 100000:
         raise RuntimeError("MIR dump failed: see " + os.path.join(MIR_DIR, "dump.log"))
+    # erbium-net (Ipv4Subnet arithmetic used by the DHCP policy code): appended to the same dump
+    for fp in glob.glob(os.path.join(tdir, "debug", ".fingerprint", "erbium-net-*")):
+        shutil.rmtree(fp, ignore_errors=True)
+    cmd2 = ["cargo", "+nightly", "rustc", "--offline", "-p", "erbium-net", "--lib", "--", "-Zunpretty=mir",
+            "-C", "debug-assertions=off", "-C", "overflow-checks=on"]
+    with open(out + ".tmp", "a") as f, open(os.path.join(MIR_DIR, "dump-net.log"), "w") as log:
+        f.write("\n// ---- erbium-net ----\n")
+        f.flush()
+        p = subprocess.run(cmd2, cwd=REPO, env=env, stdout=f, stderr=log, timeout=1800)
+    if p.returncode != 0:
+        raise RuntimeError("MIR dump of erbium-net failed: see " + os.path.join(MIR_DIR, "dump-net.log"))
     os.rename(out + ".tmp", out)
     return out, time.time() - t0, False
 
@@ -179,6 +190,32 @@ def run_property(pid, tier, seed, logdir):
         except (Unsupported, Unwind) as e:
             obligations.append(dict(name="c06_cache_wrapper_key_and_gate", engine="mirsym", functions=[], bounds="", oracle="", stubs=[], tier=tier,
                                     verdict="inconclusive", reason=f"outside the encoder's subset: {e}", queries=0, solver_time_s=0, failed=[]))
+        return obligations
+    if pid == "C11":
+        from mirsym import props_policy, enums as _en
+        structs = _en.scan_structs(REPO)
+        jobs = []
+        for name, mk, pl, ro in props_policy.shapes(tier):
+            def job(name=name, mk=mk, pl=pl, ro=ro):
+                t0 = time.time()
+                oname = "c11_policy_" + name
+                bounds = ("apply_policies on the policy tree shape '%s' (which conditions / applications / sub-policies exist is concrete; hardware addresses, subnet addresses, option values, "
+                          "the request's hardware address, receiving address and option values are symbolic), parameter request list %s, request options %s" % (name, pl, sorted(ro)))
+                oracle = props_policy.__doc__.split("erbium.conf(5):")[1].strip()
+                try:
+                    failed, ex, npaths, kinds = props_policy.obligation(prog, en, structs, mk, pl, ro)
+                    for f in failed:
+                        f["check"] = oname
+                    return dict(name=oname, engine="mirsym", functions=sorted(f.split("::")[-1] for f in ex.encoded_fns), bounds=bounds, oracle=oracle,
+                                stubs=["option values = opaque 4-octet byte strings (DhcpOptionTypeValue::Unknown; as_bytes executed from MIR)", "option tables (HashMap<DhcpOption, _>) = maps with concrete option codes",
+                                       "parameter request list = concrete list of codes", "logging disabled"] + sorted(ex.used_summaries),
+                                tier=tier, verdict="fail" if failed else "pass", reason="", queries=ex.queries, solver_time_s=round(ex.solver_time, 2), failed=_dedup(failed),
+                                paths=npaths, path_kinds=kinds, wall_s=round(time.time() - t0, 1))
+                except (Unsupported, Unwind) as e:
+                    return dict(name=oname, engine="mirsym", functions=[], bounds=bounds, oracle=oracle, stubs=[], tier=tier, verdict="inconclusive",
+                                reason=f"outside the encoder's subset: {e}", queries=0, solver_time_s=0, failed=[])
+            jobs.append(("c11_policy_" + name, job))
+        obligations.extend(run_jobs(jobs))
         return obligations
     if pid in ("C04", "C14", "C05"):
         from mirsym import props_dns, enums as _en
